@@ -357,6 +357,31 @@ def run(ctx):
         cases.append(('resolve', [text] + [vtext[json.dumps(v, sort_keys=True)] for v in item['versions']]))
     for _ in range(nres // 8):
         cases.append(('resolve', [gen_reqstr(rng)] + [rng.choice(junk + pv) for _ in range(rng.randint(0, 6))]))
+    # one Dependency object: reads of accepts_version / api and update_version() in every order
+    DEP_TRIPLES = [('1', '=1.2.3', '^2'), ('>=1.0, <2', '=1.5.0', '0.5'), ('*', '~1.2', '=0.0.3'), ('^0.2', '>=0.2.0-rc.1', '=0.2.0-rc.1'),
+                   ('=2.0.113', '2', '>= 1, < 3'), ('1.*', '', '<=1.0.0-alpha'), ('>=1, >=2', '=1.2.3', '0.0')]
+    DEP_PROBES = ['1.2.3', '1.5.0', '2.0.113', '0.2.0-rc.1', '0.5.1', '0.0.3', '1.0.0-alpha']
+    dep_items = []
+    maxlen = 5 if thorough else 4
+    for ti, (r0, r1, r2) in enumerate(DEP_TRIPLES):
+        pa, pb = DEP_PROBES[ti % len(DEP_PROBES)], DEP_PROBES[(ti + 1) % len(DEP_PROBES)]
+        alphabet = ['a' + pa, 'a' + pb, 'p', 'u' + r1, 'u' + r2]
+        for n in range(1, maxlen + 1):
+            for seq in itertools.product(alphabet, repeat=n):
+                if seq[-1][0] == 'u':
+                    continue                      # a trailing update is not observed
+                dep_items.append({'req': r0, 'ops': list(seq)})
+    for _ in range(20000 if thorough else 1500):
+        reqs3 = [rng.choice(preq_single + preq_lists) for _ in range(3)]
+        ops = []
+        for _ in range(rng.randint(1, 8)):
+            k = rng.random()
+            ops.append('a' + rng.choice(pv) if k < 0.5 else ('p' if k < 0.7 else 'u' + rng.choice(reqs3 + [gen_reqstr(rng)])))
+        dep_items.append({'req': reqs3[0], 'ops': ops})
+    for it in dep_items:
+        cases.append(('depseq', [it['req']] + it['ops']))
+    ctx.extra['dependency_op_sequences'] = {'exhaustive_orders_up_to_length': maxlen, 'requirement_triples': len(DEP_TRIPLES),
+                                            'alphabet': 'accepts(v1), accepts(v2), api, update(r1), update(r2)', 'sequences': len(dep_items)}
     # version.api through Dependency.api / CargoLockPackage.api (names of generated subprojects)
     napi = 0
     for text in rng.sample(preq_single, 600) + rng.sample(preq_lists, 300) + [gen_reqstr(rng) for _ in range(6000 if thorough else 600)]:
@@ -392,7 +417,7 @@ def run(ctx):
     for (fn, args), ri, rm in zip(cases, impl, model):
         ctx.count((fn, tuple(args)), nontrivial=True)
         nev += (len(args) - 1) if fn == 'req' else 1
-        if rm == 'OOM':
+        if rm == 'OOM' or (fn == 'depseq' and 'OOM' in rm.split('\x01')):
             noom += 1
             continue
         if ri != rm:
@@ -453,6 +478,8 @@ def run(ctx):
         groups.append({'resolve': resolve_items[i:i + 1000]})
     for i in range(0, len(glue_items), 1500):
         groups.append({'cfgglue': glue_items[i:i + 1500]})
+    for i in range(0, len(dep_items), 3000):
+        groups.append({'depseq': dep_items[i:i + 3000]})
     groups.append({'cfgglue': [{'options': [['target_feature', 'sse'], ['target_feature', 'sse2'], ['unix', None]],
                                 'ast': ['eq', 'target_feature', 'sse'], 'sp': 0}]})
     if ctx.disagreements:
@@ -471,7 +498,7 @@ def run(ctx):
     # one violation per clause kind first, so that every distinct defect gets a replay file;
     # within a kind prefer mis-evaluations over rejections and short inputs over long ones
     def weight(f):
-        text = ''.join(str(f.get(k, '')) for k in ('a', 'b', 'c', 'req', 'version', 'versions', 'expr', 'rustc_cfg'))
+        text = ''.join(str(f.get(k, '')) for k in ('a', 'b', 'c', 'req', 'version', 'versions', 'expr', 'rustc_cfg', 'ops'))
         return (isinstance(f.get('got'), str), len(text) + 3 * len(f.get('cfgs') or {}))
     fails.sort(key=lambda f: (f['kind'],) + weight(f))
     seen_kind, ordered = set(), []
@@ -488,11 +515,13 @@ def run(ctx):
         elif kind == 'exception':
             raise HarnessError('oracle crashed: ' + f['exc'])
         else:
-            ident = 'C20:%s:%s' % (kind, json.dumps({k: v for k, v in f.items() if k in ('a', 'b', 'c', 'req', 'version', 'versions', 'expr', 'cfgs', 'rustc_cfg', 'rust_args')}, sort_keys=True))
+            ident = 'C20:%s:%s' % (kind, json.dumps({k: v for k, v in f.items() if k in ('a', 'b', 'c', 'req', 'version', 'versions', 'expr', 'cfgs', 'rustc_cfg', 'rust_args', 'ops')}, sort_keys=True))
         if kind in ('semver_order',):
             rp = {'case': ['cmp', [f['a'], f['b']]], 'failure': f}
         elif kind == 'api':
             rp = {'case': ['api', [f['req']]], 'failure': f}
+        elif kind == 'dep_state':
+            rp = {'case': ['depseq', [f['req']] + f['ops']], 'failure': f}
         elif kind in ('req_release', 'req_gate', 'req_prerelease'):
             rp = {'case': ['req', [f['req'], f['version']]], 'failure': f}
         elif kind == 'resolve':
